@@ -20,7 +20,7 @@ def units(tier):
 
 def strategy(tier, unit):
     return st.fixed_dictionaries({"cell": S.cells(), "hkl": S.hkls(30), "mod": st.sampled_from(["tools", "laue"]),
-                                  "prev": st.one_of(st.none(), S.cells()), "as_array": st.booleans()})
+                                  "prev": st.one_of(st.none(), S.cells(), S.logfl(1e-9, 1e-3)), "as_array": st.booleans()})
 
 
 def check(case, ctx):
@@ -43,10 +43,18 @@ def check(case, ctx):
     # history element: the caller keeps ONE cell object and updates it in place (refinement loop); every function
     # must depend on the current contents only.  The object first holds another cell, is used, then overwritten.
     if case.get("prev") is not None:
-        holder = np.array(case["prev"], float) if case.get("as_array") else [float(x) for x in case["prev"]]
+        prev = case["prev"]
+        if not isinstance(prev, list):          # a float: the previous cell is a tiny relative perturbation of this one
+            prev = S.perturbed(cell_values, prev)
+            ctx.event("previous-call-with-near-identical-cell")
+        holder = np.array(prev, float) if case.get("as_array") else [float(x) for x in prev]
         for fn in (mod.form_a_mat, mod.form_b_mat, mod.cell_volume, mod.cell_invert, mod.form_a_mat_inv):
-            fn(holder)
-        mod.sintl(holder, case["hkl"])
+            ctx.keep("%s.%s" % (m, fn.__name__), fn(holder))
+        ctx.keep("%s.sintl" % m, mod.sintl(holder, case["hkl"]))
+        Bp = np.asarray(mod.form_b_mat(holder), float)
+        Ap = np.asarray(mod.form_a_mat(holder), float)
+        ctx.keep("%s.b_to_cell" % m, mod.b_to_cell(O.ro(Bp)))
+        ctx.keep("%s.a_to_cell" % m, mod.a_to_cell(O.ro(Ap)))
         holder[:] = cell_values
         cell = holder
         ctx.event("cell-object-reused-in-place")
@@ -81,8 +89,9 @@ def check(case, ctx):
     cii = mod.cell_invert(ci)
     ctx.near("cell_invert^2", _cell_diff(cii, cell), 1e-8, "cell_invert-involution", "%s: cell_invert(cell_invert) %r != %r" % (m, list(cii), cell))
     # inverse maps
-    ctx.near("a_to_cell", _cell_diff(mod.a_to_cell(A), cell), 1e-8, "a_to_cell", "%s: a_to_cell(A) %r != %r" % (m, list(mod.a_to_cell(A)), cell))
-    ctx.near("b_to_cell", _cell_diff(mod.b_to_cell(B), cell), 1e-8, "b_to_cell", "%s: b_to_cell(B) %r != %r" % (m, list(mod.b_to_cell(B)), cell))
+    A_ro, B_ro = O.ro(A), O.ro(B)          # the inverse maps must not modify the matrices they are given
+    ctx.near("a_to_cell", _cell_diff(mod.a_to_cell(A_ro), cell), 1e-8, "a_to_cell", "%s: a_to_cell(A) %r != %r" % (m, list(mod.a_to_cell(A)), cell))
+    ctx.near("b_to_cell", _cell_diff(mod.b_to_cell(B_ro), cell), 1e-8, "b_to_cell", "%s: b_to_cell(B) %r != %r" % (m, list(mod.b_to_cell(B_ro)), cell))
     Ai = np.asarray(mod.form_a_mat_inv(cell), float)
     # A^-1 A = I, scaled so that axial ratios do not matter: (Ai A) is dimensionless
     ctx.near("Ainv.A=I", O.maxabs(Ai @ A - np.eye(3)), 1e-8, "form_a_mat_inv", "%s: A^-1.A != I" % m)
